@@ -19,10 +19,12 @@ InnerLink(i, signer, sigok) ==
 \* directory that belongs to the name before the dot (another step's delegation directory)
 SNames == {"s1", "s1.v2"}
 States == {"valid", "siblingdir", "othersigner", "misfiled", "unauthorised", "expired", "tampered", "innermissing",
-           "innerunauth", "innerbadsig", "innerrule", "wrongdir", "ownersigned", "nosig"}
+           "innerunauth", "innerbadsig", "innerrule", "wrongdir", "ownersigned", "nosig", "innerbyparent"}
 
 InnerSteps(n, state) ==
-  [i \in 1..n |-> StepD(InName(i), <<"k3">>, 1, << >>,
+  \* "innerbyparent": the inner steps name the delegating functionary's own key, which the sub-layout's key
+  \* table does not define, and that key signed the inner links
+  [i \in 1..n |-> StepD(InName(i), IF state = "innerbyparent" THEN <<"k1">> ELSE <<"k3">>, 1, << >>,
                         IF state = "innerrule" /\ i = n THEN <<Simple("DISALLOW", <<"*">>)>>
                         ELSE <<Simple("ALLOW", <<"*">>)>>)]
 
@@ -57,6 +59,7 @@ InnerEntries(sname, n, state, deepok) ==
      THEN Entry(dir, InName(1), "k3", SubSub(deepok))
      ELSE CASE state = "innerunauth" /\ i = n -> Entry(dir, InName(i), "k2", InnerLink(i, "k2", TRUE))
             [] state = "innerbadsig" /\ i = n -> Entry(dir, InName(i), "k3", InnerLink(i, "k3", FALSE))
+            [] state = "innerbyparent" -> Entry(dir, InName(i), "k1", InnerLink(i, "k1", TRUE))
             [] OTHER -> Entry(dir, InName(i), "k3", InnerLink(i, "k3", TRUE))]
 DeepEntries(sname, state) ==
   IF Deep /\ state \notin {"innermissing"}
